@@ -41,6 +41,8 @@ TEXT['C18'] = ("Deductive proof (Verus/Z3) of CommandReader::close for every exi
                "contract-based deductive verification (Verus) of crates/cli/src/process.rs CommandReader::close over an abstract child process")
 TEXT['C09'] = ("Deductive proof (Verus/Z3) of the decimal rendering used for every printed line number, column and byte offset (DecimalFormatter, all u64 values), plus the searcher-side proof that the coordinates and bytes handed to the printers are the input's own (Core::sink_* postconditions). The printers' write paths are not verified.",
                "contract-based deductive verification (Verus): DecimalFormatter against a recursive decimal spec; event coordinates from the searcher unit")
+TEXT['C12'] = ("Kani/CBMC bounded check (all byte paths up to 5 bytes) that globset's candidate decomposition (pathutil::file_name, file_name_ext), cut mechanically from the real file, agrees with its documented meaning; counterexamples are replayed natively. It found and led to the repair of the paths-ending-in-a-dot defect. Glob parsing, strategy selection and the regex translation are not verified.",
+               "bounded function-vs-spec-function check with Kani on mechanically extracted real functions")
 checks = []
 for pid in sorted(props):
     text, tech = TEXT.get(pid, ("Deductive proof (Verus) of the contracted functions listed in evidence.", "contract-based deductive verification (Verus)"))
